@@ -870,6 +870,24 @@ def simplifiers(plan):
                     yield p
 
 
+_KIND_RANK = {"ones": 0, "impulse": 1, "ramp": 2, "f64": 3, "c128": 4, "f32": 5, "c64": 6, "i64": 7}
+
+
+def plan_cost(plan):
+    """Smaller is simpler: total samples, data kinds, then non-default arguments."""
+    size = sum(int(s["shape"][0]) * int(s["shape"][1]) for s in plan["arrays"].values() if "shape" in s)
+    kinds = sum(_KIND_RANK.get(s.get("kind"), 9) for s in plan["arrays"].values())
+    nd = 0
+    for op in plan["ops"]:
+        if op.get("shift") not in (None, 0, [0, 0]):
+            nd += 1
+        if "Q" in op and op["Q"] not in (1, 1.0):
+            nd += 1
+        if isinstance(op.get("Q"), list):
+            nd += 1
+    return (size, kinds, nd)
+
+
 def finalize_replay(plan):
     """Make array data literal so the replay file is self-contained."""
     import copy
